@@ -109,6 +109,9 @@ theories/RunnerEq.vos theories/RunnerEq.vok theories/RunnerEq.required_vos: theo
 theories/RunnerHooks.vo theories/RunnerHooks.glob theories/RunnerHooks.v.beautified theories/RunnerHooks.required_vo: theories/RunnerHooks.v theories/Base.vo theories/Status.vo theories/Rollup.vo theories/Runner.vo theories/RunnerSteps.vo theories/RunnerQuiet.vo gen/StatusTable.vo
 theories/RunnerHooks.vio: theories/RunnerHooks.v theories/Base.vio theories/Status.vio theories/Rollup.vio theories/Runner.vio theories/RunnerSteps.vio theories/RunnerQuiet.vio gen/StatusTable.vio
 theories/RunnerHooks.vos theories/RunnerHooks.vok theories/RunnerHooks.required_vos: theories/RunnerHooks.v theories/Base.vos theories/Status.vos theories/Rollup.vos theories/Runner.vos theories/RunnerSteps.vos theories/RunnerQuiet.vos gen/StatusTable.vos
+theories/RunnerLocal.vo theories/RunnerLocal.glob theories/RunnerLocal.v.beautified theories/RunnerLocal.required_vo: theories/RunnerLocal.v theories/Base.vo theories/Status.vo theories/Rollup.vo theories/Runner.vo theories/RunnerQuiet.vo theories/RunnerHooks.vo gen/StatusTable.vo
+theories/RunnerLocal.vio: theories/RunnerLocal.v theories/Base.vio theories/Status.vio theories/Rollup.vio theories/Runner.vio theories/RunnerQuiet.vio theories/RunnerHooks.vio gen/StatusTable.vio
+theories/RunnerLocal.vos theories/RunnerLocal.vok theories/RunnerLocal.required_vos: theories/RunnerLocal.v theories/Base.vos theories/Status.vos theories/Rollup.vos theories/Runner.vos theories/RunnerQuiet.vos theories/RunnerHooks.vos gen/StatusTable.vos
 theories/RunnerQuiet.vo theories/RunnerQuiet.glob theories/RunnerQuiet.v.beautified theories/RunnerQuiet.required_vo: theories/RunnerQuiet.v theories/Base.vo theories/Status.vo theories/Rollup.vo theories/Runner.vo theories/RunnerSteps.vo theories/RunnerVerdict.vo gen/StatusTable.vo
 theories/RunnerQuiet.vio: theories/RunnerQuiet.v theories/Base.vio theories/Status.vio theories/Rollup.vio theories/Runner.vio theories/RunnerSteps.vio theories/RunnerVerdict.vio gen/StatusTable.vio
 theories/RunnerQuiet.vos theories/RunnerQuiet.vok theories/RunnerQuiet.required_vos: theories/RunnerQuiet.v theories/Base.vos theories/Status.vos theories/Rollup.vos theories/Runner.vos theories/RunnerSteps.vos theories/RunnerVerdict.vos gen/StatusTable.vos
@@ -196,9 +199,9 @@ props/C10.vos props/C10.vok props/C10.required_vos: props/C10.v theories/Base.vo
 props/C11.vo props/C11.glob props/C11.v.beautified props/C11.required_vo: props/C11.v theories/Base.vo theories/UStr.vo theories/StepMatch.vo theories/StepMatchProofs.vo theories/Regex.vo theories/RegexProofs.vo
 props/C11.vio: props/C11.v theories/Base.vio theories/UStr.vio theories/StepMatch.vio theories/StepMatchProofs.vio theories/Regex.vio theories/RegexProofs.vio
 props/C11.vos props/C11.vok props/C11.required_vos: props/C11.v theories/Base.vos theories/UStr.vos theories/StepMatch.vos theories/StepMatchProofs.vos theories/Regex.vos theories/RegexProofs.vos
-props/C12.vo props/C12.glob props/C12.v.beautified props/C12.required_vo: props/C12.v theories/Base.vo theories/Status.vo theories/Rollup.vo theories/Runner.vo theories/RunnerVerdict.vo theories/RunnerSteps.vo theories/RunnerQuiet.vo theories/RunnerSelect.vo theories/RunnerHooks.vo theories/RunnerEq.vo gen/StatusTable.vo
-props/C12.vio: props/C12.v theories/Base.vio theories/Status.vio theories/Rollup.vio theories/Runner.vio theories/RunnerVerdict.vio theories/RunnerSteps.vio theories/RunnerQuiet.vio theories/RunnerSelect.vio theories/RunnerHooks.vio theories/RunnerEq.vio gen/StatusTable.vio
-props/C12.vos props/C12.vok props/C12.required_vos: props/C12.v theories/Base.vos theories/Status.vos theories/Rollup.vos theories/Runner.vos theories/RunnerVerdict.vos theories/RunnerSteps.vos theories/RunnerQuiet.vos theories/RunnerSelect.vos theories/RunnerHooks.vos theories/RunnerEq.vos gen/StatusTable.vos
+props/C12.vo props/C12.glob props/C12.v.beautified props/C12.required_vo: props/C12.v theories/Base.vo theories/Status.vo theories/Rollup.vo theories/Runner.vo theories/RunnerVerdict.vo theories/RunnerSteps.vo theories/RunnerQuiet.vo theories/RunnerSelect.vo theories/RunnerHooks.vo theories/RunnerEq.vo theories/RunnerLocal.vo gen/StatusTable.vo
+props/C12.vio: props/C12.v theories/Base.vio theories/Status.vio theories/Rollup.vio theories/Runner.vio theories/RunnerVerdict.vio theories/RunnerSteps.vio theories/RunnerQuiet.vio theories/RunnerSelect.vio theories/RunnerHooks.vio theories/RunnerEq.vio theories/RunnerLocal.vio gen/StatusTable.vio
+props/C12.vos props/C12.vok props/C12.required_vos: props/C12.v theories/Base.vos theories/Status.vos theories/Rollup.vos theories/Runner.vos theories/RunnerVerdict.vos theories/RunnerSteps.vos theories/RunnerQuiet.vos theories/RunnerSelect.vos theories/RunnerHooks.vos theories/RunnerEq.vos theories/RunnerLocal.vos gen/StatusTable.vos
 props/C13.vo props/C13.glob props/C13.v.beautified props/C13.required_vo: props/C13.v theories/Base.vo theories/Context.vo theories/ContextProofs.vo
 props/C13.vio: props/C13.v theories/Base.vio theories/Context.vio theories/ContextProofs.vio
 props/C13.vos props/C13.vok props/C13.required_vos: props/C13.v theories/Base.vos theories/Context.vos theories/ContextProofs.vos
